@@ -7,6 +7,7 @@ import (
 	"fmt"
 	"os"
 	"sort"
+	"strconv"
 	"strings"
 	"time"
 
@@ -73,6 +74,7 @@ type Stats struct {
 	BoundCompleted int            `json:"bound_completed"` // -1: none; 1<<30: unbounded
 	Exhaustive     bool           `json:"exhaustive"`
 	CapHit         string         `json:"cap_hit,omitempty"`
+	CacheFull      bool           `json:"cache_full,omitempty"` // the happens-before cache reached its size limit (less pruning, same coverage)
 	Outcomes       map[string]int `json:"outcomes"`
 	Found          []Found        `json:"found,omitempty"`
 	HarnessErr     string         `json:"harness_err,omitempty"`
@@ -92,6 +94,15 @@ type Found struct {
 }
 
 const Infinite = 1 << 30
+
+// maxCacheEntries bounds the happens-before cache of one exploration (one scenario shard in one worker
+// process): about 60 bytes per entry, so 6M entries stay below 0.5 GB. VERIF_CACHE_MAX overrides it.
+var maxCacheEntries = func() int {
+	if v, err := strconv.Atoi(os.Getenv("VERIF_CACHE_MAX")); err == nil && v > 0 {
+		return v
+	}
+	return 6_000_000
+}()
 
 type cacheKey struct {
 	s    [2]uint64
@@ -120,10 +131,17 @@ func (x *explorer) options(prefix []vsched.Pick) vsched.Options {
 			if x.bound < Infinite {
 				rem = int32(x.bound - devs)
 			}
-			if old, ok := x.cache[k]; ok && old >= rem {
+			old, ok := x.cache[k]
+			if ok && old >= rem {
 				return true
 			}
-			x.cache[k] = rem
+			// The cache only saves work, it never decides anything: once it is full (memory), states are
+			// no longer added (entries already there keep pruning and are still raised).
+			if ok || len(x.cache) < maxCacheEntries {
+				x.cache[k] = rem
+			} else {
+				x.st.CacheFull = true
+			}
 			return false
 		}
 	}
